@@ -812,6 +812,8 @@ def pure_method(recv, name, args, facts):
             recv = V.empty_set(args[0].ty.elem) if args and args[0].ty.kind == "set" else recv
         if name == "copy":
             return recv
+        if args and isinstance(args[0], Val) and args[0].ty.kind not in ("set", "dict", "empty"):
+            raise UnsupportedError(f"set.{name}() with a {args[0].ty} argument")
         if name == "issubset":
             return V.mk_bool(O.set_subset(recv, args[0]))
         if V.is_empty_literal(recv):
